@@ -10,7 +10,7 @@ from ..common import pick, hx, key_family, run_cases
 
 ID = "C15"
 LEVEL = "exploration"
-TECHNIQUE = "exception-type + bitwise state-snapshot monitor over an exhaustively enumerated configuration grid"
+TECHNIQUE = "exception-type + bitwise state-snapshot monitor over an exhaustively enumerated configuration grid; operand pairs that are two handles on one shared-memory block"
 RULE = ("case = ordered pair (a, b) of sketch configurations from a per-family grid (base configuration, one variant per "
         "parameter incl. off-by-one and differs-only-above-bit-32 values, all counter-type pairs at equal shape), both "
         "operands made non-empty by a short random history; non-trivial = the two configurations differ in exactly one "
@@ -228,15 +228,60 @@ def gen_cases(ctx):
                 elif n_pair % 5 == 4:
                     c["wrapped_operand"] = True
                 yield c
+            # both operands are handles on ONE shared-memory block (b is built with its own parameters and then attached to a's
+            # block with attach_existing_shm): compatibility is a matter of parameters, not of where the arrays live (round 8, C15-N)
+            for a, b in itertools.islice(itertools.product(grid, repeat=2), 0, None, 3 if ctx.quick else 1):
+                if a["kind"] == b["kind"]:
+                    yield {"a": a, "b": b, "hist_a": hist_a, "hist_b": [], "same_block": True}
             # a trivial user subclass on either side must behave like the library class (equal and unequal configurations)
             for a, b in ((grid[0], grid[0]), (grid[0], grid[1]), (grid[1], grid[0])):
                 for a_sub, b_sub in ((True, False), (False, True), (True, True)):
                     yield {"a": a, "b": b, "hist_a": hist_a, "hist_b": hist_b, "a_sub": a_sub, "b_sub": b_sub}
 
 
+def run_same_block(case, ctx, mon):
+    a_cfg, b_cfg = case["a"], case["b"]
+    # only pairs whose arrays have exactly the same byte sizes: attaching a view of another size to a block is not a documented use
+    # (the unchanged attach_existing_shm raises ValueError for most of them)
+    nb = [[int(getattr(state._make(c, False), n).nbytes) for n in state.ARRAYS[c["kind"]]] for c in (a_cfg, b_cfg)]
+    if nb[0] != nb[1]:
+        mon.count("same_block_pairs_skipped:different_array_sizes")
+        return
+    a = state.make(a_cfg, shared_memory=True)
+    b = None
+    try:
+        for op in case["hist_a"]:
+            ops.apply_op(a, op)
+        b = state._make(b_cfg, False)
+        b.attach_existing_shm(a.shm.name)
+        ok = compatible(a_cfg, b_cfg)
+        mon.count("same_block_pairs:" + ("compatible" if ok else "incompatible") + ":" + a_cfg["kind"][:3])
+        mon.nontrivial(not ok)
+        for x, y, xc, yc, how in ((a, b, a_cfg, b_cfg, "owner.merge(view)"), (b, a, b_cfg, a_cfg, "view.merge(owner)")):
+            sx, sy = state.snapshot(x), state.snapshot(y)
+            try:
+                x.merge(y)
+                raised = None
+            except TypeError:
+                raised = "TypeError"
+            except Exception as exc:  # noqa: BLE001
+                raised = type(exc).__name__
+            if ok:
+                mon.check(raised is None, "compatible-pair-merges", raised=raised, a=xc, b=yc, how=how + " on one shared-memory block")
+            else:
+                mon.check(raised == "TypeError", "incompatible-pair-raises-TypeError", raised=raised, a=xc, b=yc, how=how + " on one shared-memory block")
+                dx, dy = state.snap_diff(sx, state.snapshot(x)), state.snap_diff(sy, state.snapshot(y))
+                mon.check(not dx and not dy, "refused-merge-changes-nothing", self_differs_in=dx, other_differs_in=dy, a=xc, b=yc, how=how)
+    finally:
+        del b
+        del a
+
+
 def run_case(case, ctx, mon):
     if case.get("churn"):
         return run_churn(case, ctx, mon)
+    if case.get("same_block"):
+        return run_same_block(case, ctx, mon)
     a_cfg, b_cfg = case["a"], case["b"]
     a = make_maybe_subclass(a_cfg, case.get("a_sub"))
     for op in case["hist_a"]:
@@ -315,6 +360,7 @@ def run_case(case, ctx, mon):
 
 
 def run(ctx, mon):
+    state.fast_del(True)  # handles on shared-memory blocks are dropped without the library's 0.25 s pause per sketch
     run_cases(ctx, mon, gen_cases(ctx), run_case)
     mon.extra(exhaustive=True, exhaustive_scope="all ordered pairs of each grid")
 
@@ -324,6 +370,7 @@ def replay(case, ctx, mon):
 
 
 def floors(mon, ctx):
+    mon.floor("incompatible pairs of handles on one shared-memory block", sum(v for k, v in mon.counters.items() if k.startswith("same_block_pairs:incompatible")), 20)
     inc = sum(v for k, v in mon.counters.items() if k.startswith("pairs:incompatible"))
     com = sum(v for k, v in mon.counters.items() if k.startswith("pairs:compatible"))
     mon.floor("incompatible pairs", inc, 200)
